@@ -77,6 +77,7 @@ type Oblig struct {
 	Model    string
 	Note     string
 	Template *FamTemplate
+	RetTerms []Value // result values of the finished path (post obligations), for replay
 	Lite     *Term // a stronger, floating-point-free goal (negated guard of an implication); tried first
 	Args     []string
 }
